@@ -23,6 +23,25 @@ if TYPE_CHECKING:
     from aquacrop.entities.co2 import CO2
 
 
+def _net_irrigation_requirement(prof, layers, th, RootFact, comp_sto, NetIrrSMT):
+    """
+    Water (mm) needed to bring every root zone compartment to its critical
+    water content for net irrigation (negative for compartments above it)
+    """
+    requirement = 0
+    prelayer = 0
+    thCrit = 0  # (set for the first compartment: layer numbers start at 1)
+    for ii in range(comp_sto):
+        if layers[ii] > prelayer:
+            # critical water content of the compartment's soil layer
+            thCrit = prof.th_wp[ii] + ((NetIrrSMT / 100) * (prof.th_fc[ii] - prof.th_wp[ii]))
+            prelayer = layers[ii]
+
+        requirement = requirement + RootFact[ii] * (thCrit - th[ii]) * 1000 * prof.dz[ii]
+
+    return requirement
+
+
 def transpiration(
     Soil_Profile: "SoilProfile",
     Soil_nComp: int,
@@ -476,7 +495,13 @@ def transpiration(
             # Determine critical water content for net irrigation
             thCrit = thRZ.WP + ((IrrMngt_NetIrrSMT / 100) * (thRZ.FC - thRZ.WP))
             # Check if root zone water content is below net irrigation trigger
-            if thRZ.Act < thCrit:
+            # (the root zone water contents are rounded: within that rounding of
+            # the trigger the compartments wetter than their critical content can
+            # outweigh the drier ones - nothing is required then, the net
+            # irrigation requirement is never negative)
+            if (thRZ.Act < thCrit) and (
+                _net_irrigation_requirement(prof, Soil_Profile.Layer, NewCond.th, RootFact, comp_sto, IrrMngt_NetIrrSMT) > 0
+            ):
                 # Initialise layer counter
                 prelayer = 0
                 for ii in range(comp_sto):
